@@ -108,10 +108,32 @@ _SIBLING_FLUSH = {
     "variants": [{"options": {"DUMP_FLUSH_BATCH": True}}, {"options": {o: True for o in OPTS}, "clock": [2 ** 31 + 7]}],
 }
 
+# the refutation witness of proofs/MachineKeep.v (C20_keep_dependencies_inert_statement_is_false) on the implementation:
+# MAX_TASK_STACK_SIZE reset inside a nested synchronous call, caught, then `yield None` - with KEEP_DEPENDENCIES the
+# task still holds its old dependencies, _continue returns to an emptied scheduler loop, and the awaiting root's
+# contexts get an extra pause/resume pair (and a resume() that raises on its first scheduler-driven call now runs)
+def _keep_guard(fault):
+    return {
+        "roots": [[
+            {"op": "with", "c": {"async": [7, fault]}, "body": [
+                {"op": "yield", "x": "x1", "s": {"new": {"task": [
+                    {"op": "yield", "x": "a1", "s": {"new": {"const": 1}}},
+                    {"op": "let", "h": "h1", "f": {"task": [{"op": "return", "e": None}]}},
+                    {"op": "try", "body": [{"op": "sync", "x": "b1", "h": "h1"}], "x": "e1", "handler": []},
+                    {"op": "yield", "x": "n1", "s": None},
+                    {"op": "return", "e": 5}]}}}]},
+            {"op": "return", "e": {"var": "x1"}}]],
+        "params": {"kinds": {}, "maxstack": 2},
+        "variants": [{"options": {"KEEP_DEPENDENCIES": True}}],
+    }
+
+
+_KEEP_GUARD = [_keep_guard(None), _keep_guard({"resume": [1, 77]})]
+
 mach.install(globals(), "C20", NAMES, ("C20:",), PROFILES, n_quick=200, n_thorough=2500, nontrivial=_nontrivial,
-             extra_monitors=_extra, corpus=[_SIBLING_FLUSH], level="proof")
-for _c in CORPUS:
-    _c["variants"] = _SIBLING_FLUSH["variants"]
+             extra_monitors=_extra, corpus=[_SIBLING_FLUSH] + _KEEP_GUARD, level="proof")
+for _c, _src in zip(CORPUS, [_SIBLING_FLUSH] + _KEEP_GUARD):
+    _c["variants"] = _src["variants"]
     _c["tree"]["variants"] = _c["variants"]
 
 _gen0 = gen_cases
